@@ -33,6 +33,6 @@ def run(ctx, report):
         report.guard("C14.INTACT", R.intact_flow, ctx, report, "C14.INTACT", facts, config)
         report.guard("C14.LOCK", R.lock, ctx, report, "C14.LOCK", facts, config)
         report.guard("C14.ONCE", F.check_family, ctx, report, "C14.ONCE", facts, config, (F.RUN,), lambda i: i in ONCE_IDS)
-    P.check(ctx, report, "C14.NOSWALLOW", ["catch_unwind", "resume_unwind", "panic_hook"])
-    P.check(ctx, report, "C14.RELEASE", ["forget_guard", "manually_drop_guard", "leak_guard"])
+    P.check(ctx, report, "C14.NOSWALLOW", ["catch_unwind", "resume_unwind", "panic_hook", "thread_handoff"])
+    P.check(ctx, report, "C14.RELEASE", ["forget_guard", "manually_drop_guard", "leak_guard", "launder_guard"])
     P.check(ctx, report, "C14.LOCK", ["write_lock"])
